@@ -88,9 +88,18 @@ using Vec = dispenso::ConcurrentVector<Elem, Traits>;
 #ifndef VF_MAXN
 #define VF_MAXN 6
 #endif
-// bit i set => operation kind i may occur in the history
-#ifndef VF_OPMASK
-#define VF_OPMASK 0xffffffffu
+// bit i of VF_MASKk set => operation kind i may occur as the k-th operation of the history
+#ifndef VF_MASK0
+#define VF_MASK0 0xffffffffu
+#endif
+#ifndef VF_MASK1
+#define VF_MASK1 0xffffffffu
+#endif
+#ifndef VF_MASK2
+#define VF_MASK2 0xffffffffu
+#endif
+#ifndef VF_MASK3
+#define VF_MASK3 0xffffffffu
 #endif
 #define NKINDS 26
 
@@ -147,18 +156,21 @@ struct Gen {
   Elem operator()() { return Elem((*next)++); }
 };
 
+template <uint32_t MASK>
 static void step() {
   Vec& v = *vec[0];
   Vec& w = *vec[1];
   Ghost& g = gh[0];
   Ghost& h = gh[1];
   uint32_t op = vf_range_u32(0, NKINDS - 1);
-  vf_assume((VF_OPMASK >> op) & 1u);
   int32_t x = (int32_t)vf_range_u32(0, 100);
   uint32_t n = g.n;
   switch (op) {
-#if (VF_OPMASK >> 0) & 1
-    case 0: {  // push_back(const T&)
+    case 0: {
+      if (!((MASK >> 0) & 1u)) {
+        vf_assume(false);
+        break;
+      }  // push_back(const T&)
       vf_assume(n < VF_MAXN);
       {
         Elem e(x);
@@ -170,9 +182,11 @@ static void step() {
       LIFE("push_back(const T&): live objects == size");
       break;
     }
-#endif
-#if (VF_OPMASK >> 1) & 1
-    case 1: {  // push_back(T&&)
+    case 1: {
+      if (!((MASK >> 1) & 1u)) {
+        vf_assume(false);
+        break;
+      }  // push_back(T&&)
       vf_assume(n < VF_MAXN);
       {
         Elem e(x);
@@ -183,9 +197,11 @@ static void step() {
       LIFE("push_back(T&&): live objects == size");
       break;
     }
-#endif
-#if (VF_OPMASK >> 2) & 1
-    case 2: {  // emplace_back
+    case 2: {
+      if (!((MASK >> 2) & 1u)) {
+        vf_assume(false);
+        break;
+      }  // emplace_back
       vf_assume(n < VF_MAXN);
       auto it = v.emplace_back(x);
       vf_check(it - v.begin() == (ssize_t)n, "emplace_back returns the position of the new element");
@@ -194,9 +210,11 @@ static void step() {
       LIFE("emplace_back: live objects == size");
       break;
     }
-#endif
-#if (VF_OPMASK >> 3) & 1
-    case 3: {  // grow_by(delta, t)
+    case 3: {
+      if (!((MASK >> 3) & 1u)) {
+        vf_assume(false);
+        break;
+      }  // grow_by(delta, t)
       uint32_t d = vf_range_u32(0, VF_MAXN);
       vf_assume(n + d <= VF_MAXN);
       {
@@ -208,9 +226,11 @@ static void step() {
       LIFE("grow_by(n, value): live objects == size");
       break;
     }
-#endif
-#if (VF_OPMASK >> 4) & 1
-    case 4: {  // grow_by(delta): default-constructed elements
+    case 4: {
+      if (!((MASK >> 4) & 1u)) {
+        vf_assume(false);
+        break;
+      }  // grow_by(delta): default-constructed elements
       uint32_t d = vf_range_u32(0, VF_MAXN);
       vf_assume(n + d <= VF_MAXN);
       auto it = v.grow_by(d);
@@ -219,9 +239,11 @@ static void step() {
       LIFE("grow_by(n): live objects == size");
       break;
     }
-#endif
-#if (VF_OPMASK >> 5) & 1
-    case 5: {  // grow_by_generator
+    case 5: {
+      if (!((MASK >> 5) & 1u)) {
+        vf_assume(false);
+        break;
+      }  // grow_by_generator
       uint32_t d = vf_range_u32(0, VF_MAXN);
       vf_assume(n + d <= VF_MAXN);
       int32_t next = x;
@@ -234,9 +256,11 @@ static void step() {
       LIFE("grow_by_generator: live objects == size");
       break;
     }
-#endif
-#if (VF_OPMASK >> 6) & 1
-    case 6: {  // grow_to_at_least(n) / (n, t)
+    case 6: {
+      if (!((MASK >> 6) & 1u)) {
+        vf_assume(false);
+        break;
+      }  // grow_to_at_least(n) / (n, t)
       uint32_t m = vf_range_u32(1, VF_MAXN);
       bool withValue = vf_nondet_bool();
       if (withValue) {
@@ -253,9 +277,11 @@ static void step() {
       LIFE("grow_to_at_least: live objects == size");
       break;
     }
-#endif
-#if (VF_OPMASK >> 7) & 1
-    case 7: {  // insert(pos, const T&)
+    case 7: {
+      if (!((MASK >> 7) & 1u)) {
+        vf_assume(false);
+        break;
+      }  // insert(pos, const T&)
       vf_assume(n < VF_MAXN);
       uint32_t p = vf_range_u32(0, n);
       {
@@ -267,9 +293,11 @@ static void step() {
       LIFE("insert(pos, const T&): live objects == size (the slot is constructed exactly once)");
       break;
     }
-#endif
-#if (VF_OPMASK >> 8) & 1
-    case 8: {  // insert(pos, T&&)
+    case 8: {
+      if (!((MASK >> 8) & 1u)) {
+        vf_assume(false);
+        break;
+      }  // insert(pos, T&&)
       vf_assume(n < VF_MAXN);
       uint32_t p = vf_range_u32(0, n);
       {
@@ -281,9 +309,11 @@ static void step() {
       LIFE("insert(pos, T&&): live objects == size (the slot is constructed exactly once)");
       break;
     }
-#endif
-#if (VF_OPMASK >> 9) & 1
-    case 9: {  // insert(pos, count, value)
+    case 9: {
+      if (!((MASK >> 9) & 1u)) {
+        vf_assume(false);
+        break;
+      }  // insert(pos, count, value)
       uint32_t d = vf_range_u32(0, VF_MAXN);
       vf_assume(n + d <= VF_MAXN);
       uint32_t p = vf_range_u32(0, n);
@@ -296,9 +326,11 @@ static void step() {
       LIFE("insert(pos, count, value): live objects == size");
       break;
     }
-#endif
-#if (VF_OPMASK >> 10) & 1
-    case 10: {  // insert(pos, first, last) from the second vector's first d elements
+    case 10: {
+      if (!((MASK >> 10) & 1u)) {
+        vf_assume(false);
+        break;
+      }  // insert(pos, first, last) from the second vector's first d elements
       uint32_t d = vf_range_u32(0, 2);
       vf_assume(n + d <= VF_MAXN && d <= h.n);
       uint32_t p = vf_range_u32(0, n);
@@ -311,9 +343,11 @@ static void step() {
       LIFE("insert(pos, first, last): live objects == size");
       break;
     }
-#endif
-#if (VF_OPMASK >> 11) & 1
-    case 11: {  // erase(pos), pos may be end()
+    case 11: {
+      if (!((MASK >> 11) & 1u)) {
+        vf_assume(false);
+        break;
+      }  // erase(pos), pos may be end()
       uint32_t p = vf_range_u32(0, n);
       auto it = v.erase(v.cbegin() + p);
       if (p < n) g_erase(g, p, p + 1);
@@ -321,9 +355,11 @@ static void step() {
       LIFE("erase(pos): live objects == size (the vacated last element is destroyed)");
       break;
     }
-#endif
-#if (VF_OPMASK >> 12) & 1
-    case 12: {  // erase(first, last)
+    case 12: {
+      if (!((MASK >> 12) & 1u)) {
+        vf_assume(false);
+        break;
+      }  // erase(first, last)
       uint32_t f = vf_range_u32(0, n);
       uint32_t l = vf_range_u32(0, n);
       vf_assume(f <= l);
@@ -333,9 +369,11 @@ static void step() {
       LIFE("erase(first, last): live objects == size (the whole vacated tail is destroyed)");
       break;
     }
-#endif
-#if (VF_OPMASK >> 13) & 1
-    case 13: {  // resize(len) / resize(len, value)
+    case 13: {
+      if (!((MASK >> 13) & 1u)) {
+        vf_assume(false);
+        break;
+      }  // resize(len) / resize(len, value)
       uint32_t m = vf_range_u32(0, VF_MAXN);
       bool withValue = vf_nondet_bool();
       if (withValue) {
@@ -348,51 +386,63 @@ static void step() {
       LIFE("resize: live objects == size");
       break;
     }
-#endif
-#if (VF_OPMASK >> 14) & 1
-    case 14: {  // reserve
+    case 14: {
+      if (!((MASK >> 14) & 1u)) {
+        vf_assume(false);
+        break;
+      }  // reserve
       uint32_t m = vf_range_u32(0, 8);
       v.reserve(m);
       vf_check(v.capacity() >= m, "capacity() >= reserved amount");
       LIFE("reserve: live objects == size");
       break;
     }
-#endif
-#if (VF_OPMASK >> 15) & 1
-    case 15: {  // pop_back
+    case 15: {
+      if (!((MASK >> 15) & 1u)) {
+        vf_assume(false);
+        break;
+      }  // pop_back
       vf_assume(n > 0);
       v.pop_back();
       g.n = n - 1;
       LIFE("pop_back: live objects == size");
       break;
     }
-#endif
-#if (VF_OPMASK >> 16) & 1
-    case 16: {  // clear
+    case 16: {
+      if (!((MASK >> 16) & 1u)) {
+        vf_assume(false);
+        break;
+      }  // clear
       v.clear();
       g.n = 0;
       LIFE("clear: live objects == size");
       break;
     }
-#endif
-#if (VF_OPMASK >> 17) & 1
-    case 17: {  // shrink_to_fit
+    case 17: {
+      if (!((MASK >> 17) & 1u)) {
+        vf_assume(false);
+        break;
+      }  // shrink_to_fit
       v.shrink_to_fit();
       vf_check(v.capacity() >= g.n && v.capacity() >= v.default_capacity(), "shrink_to_fit keeps enough capacity");
       LIFE("shrink_to_fit: live objects == size");
       break;
     }
-#endif
-#if (VF_OPMASK >> 18) & 1
-    case 18: {  // copy assignment v = w
+    case 18: {
+      if (!((MASK >> 18) & 1u)) {
+        vf_assume(false);
+        break;
+      }  // copy assignment v = w
       v = w;
       g = h;
       LIFE("copy assignment: live objects == size");
       break;
     }
-#endif
-#if (VF_OPMASK >> 19) & 1
-    case 19: {  // move assignment v = std::move(w): w is left valid with unspecified contents
+    case 19: {
+      if (!((MASK >> 19) & 1u)) {
+        vf_assume(false);
+        break;
+      }  // move assignment v = std::move(w): w is left valid with unspecified contents
       v = std::move(w);
       g = h;
       h.n = (uint32_t)w.size();
@@ -400,9 +450,11 @@ static void step() {
       LIFE("move assignment: live objects == size");
       break;
     }
-#endif
-#if (VF_OPMASK >> 20) & 1
-    case 20: {  // swap
+    case 20: {
+      if (!((MASK >> 20) & 1u)) {
+        vf_assume(false);
+        break;
+      }  // swap
       if (vf_nondet_bool()) {
         v.swap(w);
       } else {
@@ -414,9 +466,11 @@ static void step() {
       LIFE("swap: live objects == size");
       break;
     }
-#endif
-#if (VF_OPMASK >> 21) & 1
-    case 21: {  // assign(count, value)
+    case 21: {
+      if (!((MASK >> 21) & 1u)) {
+        vf_assume(false);
+        break;
+      }  // assign(count, value)
       uint32_t m = vf_range_u32(0, VF_MAXN);
       {
         Elem e(x);
@@ -427,17 +481,21 @@ static void step() {
       LIFE("assign(count, value): live objects == size");
       break;
     }
-#endif
-#if (VF_OPMASK >> 22) & 1
-    case 22: {  // assign(first, last) from the second vector
+    case 22: {
+      if (!((MASK >> 22) & 1u)) {
+        vf_assume(false);
+        break;
+      }  // assign(first, last) from the second vector
       v.assign(w.cbegin(), w.cend());
       g = h;
       LIFE("assign(first, last): live objects == size");
       break;
     }
-#endif
-#if (VF_OPMASK >> 23) & 1
-    case 23: {  // copy construction of a temporary from v, compare, destroy
+    case 23: {
+      if (!((MASK >> 23) & 1u)) {
+        vf_assume(false);
+        break;
+      }  // copy construction of a temporary from v, compare, destroy
       {
         Vec c(v);
         vf_check(c.size() == g.n, "copy constructor: size");
@@ -447,9 +505,11 @@ static void step() {
       LIFE("copy constructor + destructor: live objects == size");
       break;
     }
-#endif
-#if (VF_OPMASK >> 24) & 1
-    case 24: {  // move construction from v; the moved-from v must be empty and reusable
+    case 24: {
+      if (!((MASK >> 24) & 1u)) {
+        vf_assume(false);
+        break;
+      }  // move construction from v; the moved-from v must be empty and reusable
       {
         Vec t(std::move(v));
         vf_check(v.size() == 0, "moved-from vector is empty");
@@ -464,9 +524,11 @@ static void step() {
       LIFE("move constructor: live objects == size");
       break;
     }
-#endif
-#if (VF_OPMASK >> 25) & 1
-    case 25: {  // grow_by(first, last) from the second vector's first d elements
+    case 25: {
+      if (!((MASK >> 25) & 1u)) {
+        vf_assume(false);
+        break;
+      }  // grow_by(first, last) from the second vector's first d elements
       uint32_t d = vf_range_u32(0, 2);
       vf_assume(n + d <= VF_MAXN && d <= h.n);
       auto it = v.grow_by(w.cbegin(), w.cbegin() + d);
@@ -478,7 +540,6 @@ static void step() {
       LIFE("grow_by(first, last): live objects == size");
       break;
     }
-#endif
     default:
       vf_assume(false);
       break;
@@ -539,7 +600,27 @@ static void run() {
   g_resize(gh[1], m, y);
   contents(1);
   LIFE("sizing constructor: live objects == size");
-  for (int s = 0; s < VF_OPS; ++s) step();
+#ifdef VF_PREFIX
+  // concrete prefix: VF_PREFIX emplace_back calls (keeps the state concrete for the first symbolic operation)
+  for (int32_t i = 0; i < VF_PREFIX; ++i) {
+    vec[0]->emplace_back(10 + i);
+    gh[0].a[i] = 10 + i;
+    gh[0].n = (uint32_t)i + 1;
+  }
+  LIFE("prefix: live objects == size");
+#endif
+#if VF_OPS >= 1
+  step<VF_MASK0>();
+#endif
+#if VF_OPS >= 2
+  step<VF_MASK1>();
+#endif
+#if VF_OPS >= 3
+  step<VF_MASK2>();
+#endif
+#if VF_OPS >= 4
+  step<VF_MASK3>();
+#endif
 #ifndef VF_NOWALK
   walk(0);
 #endif
